@@ -297,6 +297,21 @@ func c05Case(c *core.Ctx, idx int) {
 			return
 		}
 		rec.Count("walked_outputs", 1)
+		// Size, Append and the length prefixes they produce must agree for the value as it is now,
+		// also when the same variable was marshalled before with other content
+		if v.CanAddr() && !model.HasMultiMap(v) {
+			mutateInPlace(v, &gen.VG{R: rv, C: tc.cfg, Budget: 100}, 0)
+			if !model.HasMultiMap(v) {
+				again, err, pn := marshal(tc.p, data[:0], ptrTo(v))
+				want := tc.cfg.Encode(v)
+				rec.Eval(1)
+				if err != nil || pn != "" || !bytes.Equal(again, want) {
+					rec.Violation("walk", fmt.Sprintf("after changing the value in place, Marshal into the re-used buffer gives bytes that do not match the documented encoding (stale size or length prefix) [%s]: %v %s\n  type %s\n  value %s\n  got  %s\n  want %s", tc.name, err, trunc1(pn), typeString(tc.typ), model.Show(v), hexHead(again), hexHead(want)), caseExtra(tc, v, again))
+					return
+				}
+				rec.Count("walked_after_mutation", 1)
+			}
+		}
 		if rec.WantSample() && len(data) < 60 {
 			rec.Sample(map[string]any{"config": tc.name, "type": typeString(tc.typ), "value": model.Show(v), "bytes": fmt.Sprintf("%x", data), "walked": true})
 		}
